@@ -55,6 +55,8 @@ class C15(Spec):
                 "K 1 1 0 x@0,a@0,a@0 -", "K 1 1 600 x,a,a -", "K 1 1 600 X,a,a -", "K 1 2 600 X,x,a,a,a a",
                 "K 1 1 600 n@200,n@200,a@0 -", "K 1 1 600 n@200,n@300,a@0,n@250,a -",
                 "K 1 1 600 U a 300", "K 1 1 600 P a 300", "K 1 1 600 S a 300", "K 1 1 600 W a 300", "K 1 1 600 D a 300",
+                # an interim response (100 Continue / 102 Processing) in front of the final one (fixed in the fourth round)
+                "K 1 1 600 q a", "K 1 1 600 Q a", "K 1 1 600 q,Q,a,q,Q,a q,Q", "K 2 2 600 Q,q,Q,q,a,d -",
                 "K 1 1 5000 " + ",".join(["T@20,a@0"] * 12) + " -", "K 1 1 5000 " + ",".join(["T@20,a@5000"] * 12) + " -",
                 "K 2 2 5000 " + ",".join(["T@25,a@0,a@3000"] * 8) + " -",
                 "L 1 4000", "L 2 3000"]
@@ -78,7 +80,7 @@ class C15(Spec):
                 elif r < 0.38 and k <= m:
                     b = rng.choice("UPSWD")      # (no request queued behind: bytes sent while the next one is in flight ARE its response)
                 else:
-                    b = rng.choice("adbc")
+                    b = rng.choice("adbcqQ")
                     if rng.random() < 0.2:
                         b += "@%d" % rng.choice([0, 0, 2000])
                 w1.append(b)
@@ -120,7 +122,7 @@ class C15(Spec):
                 return "request %d was answered by the server but its promise was %s (%s)" % (i, o, case)
             if b == "D" and o != "R":
                 return "request %d was answered with a response that cannot be parsed but its promise was %s (%s)" % (i, o, case)
-            if b in "adbcexg" and o != "F%d" % i and not (closing and i >= int(t[2])):
+            if b in "adbcexgqQ" and o != "F%d" % i and not (closing and i >= int(t[2])):
                 return "request %d was answered by the server but its promise was %s (%s)" % (i, o, case)
             if b in "nlhHX" and (tmos[i] > 0 or b == "X") and o != "R":
                 return "request %d was not answered (%s) but its promise was %s (%s)" % (i, b, o, case)
